@@ -214,11 +214,19 @@ pub fn ev_strand<K: Kmer + Send + Sync>(sink: &Sink, r: &mut Rng, inp: &GInput, 
         .map(|(s, f)| if *f { rc_bytes(s) } else { s.clone() })
         .collect();
     let cfg = gen_pipecfg(r, inp.k, inp.stranded);
+    // every filter_kmers call of the run (table, direct, per shard) makes about this many bucket passes (1 = the default budget)
+    let slices = *r.pick(&[1usize, 1, 2, 3, 7, 64, 256]);
     let desc = json!({"op":"strand","K":inp.k,"st":inp.stranded,"thr":inp.thr,"reads":inp.reads,"flips":flips,
-        "reads2":reads2,"P":cfg.p,"rc":cfg.rc,"vt":cfg.vt,"fam":inp.fam,"mode":"sum"});
+        "reads2":reads2,"P":cfg.p,"rc":cfg.rc,"vt":cfg.vt,"fam":inp.fam,"mode":"sum","slices":slices});
     let case = sink.begin_case(&desc);
     let res = guard(|| {
         let run = |rd: &[Vec<u8>]| {
+            let nk: usize = rd.iter().map(|s| s.len().saturating_sub(inp.k - 1)).sum();
+            let kmer_mem = nk * std::mem::size_of::<(K, u32)>();
+            if slices > 1 && kmer_mem > 0 {
+                // table_from_reads asks for 4 units of memory
+                debruijn::verif_hooks::set_bytes_per_unit(Some(std::cmp::max(1, kmer_mem / (4 * (slices - 1)))));
+            }
             let t = table_from_reads::<K>(rd, inp.stranded, inp.thr, Mode::Sum);
             let direct = direct_pipeline::<K>(rd, inp.stranded, inp.thr, false);
             let (sharded, _) = sharded_dyn::<K>(rd, inp.stranded, inp.thr, cfg.rc, cfg.p, cfg.perm.as_deref(), cfg.prune, cfg.use_hash, cfg.vt);
@@ -229,10 +237,12 @@ pub fn ev_strand<K: Kmer + Send + Sync>(sink: &Sink, r: &mut Rng, inp: &GInput, 
             // straight after compression of the UNPRUNED table (extensions to rejected k-mers still present)
             let raw = project_base(&compress_rows::<K>(&t, inp.stranded, Mode::Sum, "hash"));
             let edges: Vec<Value> = [&direct, &sharded, &re, &raw].iter().map(|g| real_edges::<K>(g, inp.stranded)).collect();
+            debruijn::verif_hooks::set_bytes_per_unit(None);
             (t, direct, sharded, re, raw, edges)
         };
         (run(&inp.reads), run(&reads2))
     });
+    debruijn::verif_hooks::set_bytes_per_unit(None);
     sink.end_case();
     let mut e = desc;
     e["case"] = json!(case);
@@ -774,12 +784,21 @@ pub fn big_nodes(r: &mut Rng, k: usize, n: usize, stranded: bool) -> Vec<NodeP> 
     let canon = |s: &[u8]| if stranded { s.to_vec() } else { std::cmp::min(s.to_vec(), rc_bytes(s)) };
     while out.len() < n {
         let len = k + r.below(4);
-        let s = r.dna(len, &[0, 1, 2, 3]);
+        let mut s = r.dna(len, &[0, 1, 2, 3]);
+        // some nodes start or end with a k-mer that is its own reverse complement (even K): such a node end is found
+        // through the reverse-complement probe of find_link when asked from the other side
+        if k % 2 == 0 && r.chance(1, 6) {
+            let h = r.dna(k / 2, &[0, 1, 2, 3]);
+            let mut pal = h.clone();
+            pal.extend(rc_bytes(&h));
+            if r.chance(1, 2) {
+                s[..k].copy_from_slice(&pal);
+            } else {
+                s[len - k..].copy_from_slice(&pal);
+            }
+        }
         let f = canon(&s[..k]);
         let l = canon(&s[len - k..]);
-        if s[..k] == rc_bytes(&s[..k])[..] || s[len - k..] == rc_bytes(&s[len - k..])[..] {
-            continue;
-        }
         if seen.contains(&f) || seen.contains(&l) || (len > k && f == l) {
             continue;
         }
